@@ -150,6 +150,9 @@ func (i *interpreter) decideAux(cond, site string, aux uint64, trueKnownFeasible
 		panic(engineAbort{kind: abortUnsupported, msg: "symbolic branch outside exploration"})
 	}
 	i.job().countDecision()
+	if !i.deadline.IsZero() && time.Now().After(i.deadline) {
+		panic(engineAbort{kind: abortTruncated, msg: "path wall limit"})
+	}
 	if e.replaying() {
 		d := e.prefix[e.pos]
 		if d.Site != site || d.N != 2 {
